@@ -318,6 +318,8 @@ class Funcs:
             return tuple(ch), self.meta(node.aux), tuple('e%d' % i for i in range(n))
         if self.style == 2:
             return self._gen(ch), self.meta(node.aux)
+        if self.style == 6:  # path entries that REPEAT and are not all hashable (a multimap's keys, list-valued keys): only their number is constrained
+            return list(ch), self.meta(node.aux), tuple((['u', 0] if i == 0 else 'dup') for i in range(n))
         if self.style == 4:  # the aux object travels in the path ENTRIES, not in the metadata
             return list(ch), (self.rid, None), tuple((i, node.aux) for i in range(n))
         lst = list(ch)
